@@ -25,15 +25,17 @@ struct Call
 };
 std::vector<Call> *calls;
 
-enum { P_MULTI_THREAD = 0, P_NEGATIVE, P_ZERO, P_NESTED, P_TYPE_MAX, P_PARTIAL_LAST_BLOCK, P_FROM_TASK, P_COUNT_GT_THREADS };
+enum { P_MULTI_THREAD = 0, P_NEGATIVE, P_ZERO, P_NESTED, P_TYPE_MAX, P_PARTIAL_LAST_BLOCK, P_FROM_TASK, P_COUNT_GT_THREADS, P_PREFILL };
 const char *probe_names[] = {"call_executed_by_more_than_one_thread", "negative_count", "zero_count", "nested_call", "count_is_type_maximum",
-                             "last_block_partial", "call_from_inside_task", "count_far_above_thread_count", nullptr};
+                             "last_block_partial", "call_from_inside_task", "count_far_above_thread_count", "scheduled_closures_ran", nullptr};
 const char *no_faults[] = {nullptr};
 const char *tyname[] = {"unsigned char", "short", "int", "unsigned", "long", "long long", "unsigned long long", "size_t"};
 const char *apiname[] = {"parallel_for", "parallel_foreach(container)", "parallel_foreach(iterators)", "parallel_in_blocks_of"};
 
+int blockers_started, blockers_released;
 void reset()
 {
+  blockers_started = blockers_released = 0;
   memset(&plan, 0, sizeof plan);
   delete calls;
   calls = new std::vector<Call>();
@@ -108,6 +110,12 @@ void do_plan(int tier)
         c.inner_count = 64;
     }
     c.from_task = c.nested_at < 0 && sim_plan(6) == 0;
+    c.prefill = 0;
+    c.prefill_block = 0;
+    if (!c.from_task && lane != LANE_DEBUG && sim_plan(12) == 0)
+      c.prefill = lane == LANE_OMP ? 1 + (int)sim_plan(6) : (sim_plan(2) ? 248 + (int)sim_plan(12) : 300 + (int)sim_plan(300));
+    if (c.prefill && (lane == LANE_INTERNAL) && plan.init_threads > 1)
+      c.prefill_block = (int)sim_plan(2);
     c.from_task_n = 2 + (int)sim_plan(3);
     total += c.count > 0 ? c.count : 0;
   }
@@ -142,6 +150,8 @@ void describe(char *buf, size_t n)
                     apiname[c.inner_api], tyname[c.inner_itype], c.inner_count, c.inner_block);
     if (c.from_task)
       k += snprintf(buf + k, n - k, ", \"called_from_task_of\": %d", c.from_task_n);
+    if (c.prefill)
+      k += snprintf(buf + k, n - k, ", \"scheduled_closures_before\": %d, \"workers_occupied_by_long_tasks\": %d", c.prefill, c.prefill_block);
     k += snprintf(buf + k, n - k, "}");
   }
   snprintf(buf + k, n - k, "]}");
@@ -264,6 +274,21 @@ void c01_body_exit(int h)
   sim_event(104, (uint64_t)h, 0);
   c.active--;
 }
+
+void c01_prefill_ran(void) { sim_probe(P_PREFILL); }
+void c01_blocker(void)
+{
+  blockers_started++;
+  while (!blockers_released)
+    sim_yield();
+}
+void c01_wait_blockers(int n)
+{
+  unsigned long long bound = sim_steps() + 200000;
+  while (blockers_started < n && sim_steps() < bound)
+    sim_yield();
+}
+void c01_release_blockers(void) { blockers_released = 1; }
 
 void c01_slot_check(int h, long long idx, int value)
 {
